@@ -139,6 +139,18 @@ func runC10(c *Ctx) {
 		r.Check((w1 != nil || pe != nil) && strings.Contains(fmtS, "%w"), "C10.exits.error-wrap", c.ipos(e.Instr), "error wraps (%%w) ErrInvalidPathFormat or the numeric parse error: format %q", fmtS)
 	}
 	r.Floor("C10.floor.exits", nEmpty+nLoopRet+nErr, 4, "returns of ParsePath")
+	// closed list of reject reasons: an error return is reachable only through one of these edges
+	rejectEdges := plainEdges(edgesMatching(b,
+		"bin<<>(len("+matches+"), 2)", "bin<<=>(len("+matches+"), 1)",
+		"bin<!=>(load(iaddr("+matches+", 0)), "+elem+")", "bin<!=>("+elem+", load(iaddr("+matches+", 0)))",
+		"bin<!=>(ext#1(call<*>(load(iaddr("+matches+", 1)))), nil)"))
+	avoid := ana.ReachableAvoiding(fn, rejectEdges)
+	for _, e := range ana.Exits(fn) {
+		if e.Panic || b.Of(e.Results[1], e.Instr).Is("nil") {
+			continue
+		}
+		r.Check(!avoid[e.Instr.Block()], "C10.exits.reject-closed", c.ipos(e.Instr), "error return reachable only through {no digit group matched, match is not the whole component, numeric parse error} (%d reject edges found); any other rejection refuses a string the statement accepts", len(rejectEdges))
+	}
 
 	// gates on the append
 	var parseCall *ssa.Call
